@@ -43,6 +43,23 @@ def pair_exploration(ctx, res):
                 for k in range(1, nev + 1):
                     items.append({"variant": variant, "state": state, "k": k})
         outs = pool.map("engines.crash:launch_pair", items)
+        # three launches (failing variant): the second one is held inside its body while a third one is started
+        fail_variant = next(v for v in VARIANTS if v["code"] != 0 and v["how"] == "exit")
+        base = pool.map("engines.crash:launch", [{"variant": fail_variant, "state": fresh, "k": 0, "sig": 9}])[0]
+        titems = [{"variant": fail_variant, "state": fresh, "k": k} for k in range(1, len(base.get("events", [])) + 1)]
+        touts = pool.map("engines.crash:launch_triple", titems)
+    ntriple, held = 0, 0
+    for it, o in zip(titems, touts):
+        ntriple += 1
+        log = o["log"]
+        held += "second-body-held" in o["phases"]
+        if any(log[i] == "start" and log[i + 1] == "start" for i in range(len(log) - 1)):
+            res.violation("taskrunner-triple:two-bodies-at-once", f"failing job, A stopped at line event {it['k']}, B waiting, A resumed and failed, B retried and was held inside its "
+                          f"body, C launched: body log {log} phases {o['phases']}", {"pair": True, "triple": True, "item": it, "result": o})
+        if o["hang"]:
+            res.violation("taskrunner-triple:hang", f"A stopped at {it['k']}: a process did not end (phases {o['phases']})", {"pair": True, "triple": True, "item": it, "result": o})
+    res.coverage["taskrunner_triple_launches"] = ntriple
+    res.coverage["taskrunner_triple_second_body_held"] = held
     for it, o in zip(items, outs):
         n += 1
         vname = f"{it['variant']['how']}{it['variant']['code']}"
@@ -61,8 +78,8 @@ def pair_exploration(ctx, res):
         if o["hang"]:
             res.violation("taskrunner-pair:hang", f"{vname} from {it['state']}, A stopped at {it['k']}: a process did not end", payload)
     res.coverage["taskrunner_pair_launches"] = n
-    res.coverage["evaluations"] = res.coverage.get("evaluations", 0) + n
-    res.coverage["traces_validated_against_impl"] = res.coverage.get("traces_validated_against_impl", 0) + n
+    res.coverage["evaluations"] = res.coverage.get("evaluations", 0) + n + ntriple
+    res.coverage["traces_validated_against_impl"] = res.coverage.get("traces_validated_against_impl", 0) + n + ntriple
 
 
 _w_run = run
@@ -71,7 +88,8 @@ _w_run = run
 def run(ctx):  # noqa: F811
     res = _w_run(ctx)
     pair_exploration(ctx, res)
-    res.coverage["rule"] += ("; plus pairs of REAL TaskRunner processes on one job directory: process A stopped (SIGSTOP) at every traced line event of "
+    res.coverage["rule"] += ("; plus triples of real TaskRunner processes (failing job: A stopped at every traced line event, B waits for the run lock, A fails and leaves, "
+                             "B is held inside its body while C is launched - C must wait); plus pairs of REAL TaskRunner processes on one job directory: process A stopped (SIGSTOP) at every traced line event of "
                              "run.py / the script / the task body, process B started meanwhile, A resumed - the body log must show no overlap and "
                              "exactly one successful body")
     return res
